@@ -39,6 +39,8 @@ import (
 	"syscall"
 	"time"
 
+	"github.com/ajitpratap0/GoSQLX/pkg/gosqlx"
+	"github.com/ajitpratap0/GoSQLX/pkg/sql/ast"
 	"github.com/ajitpratap0/GoSQLX/pkg/sql/tokenizer"
 
 	"verif/checks/c20/calib"
@@ -351,14 +353,19 @@ func runCase(c *common.Ctx, e *common.Enum, f *family, en *entry) {
 	c.Sample(map[string]any{"family": f.name, "entry": en.name, "input_at_n=8": common.Trim(f.gen(8), 120)})
 
 	// warm-up: one-time initialisation (sync.Once tables, compiled patterns) stays out of the numbers
-	if call, ok := en.prepare(f.gen(4)); ok {
+	if en.needAST {
+		if t, err := gosqlx.Parse(f.gen(4)); err == nil && t != nil {
+			safeCall(func() string { return en.tree(t) })
+		}
+	} else if call, ok := en.prepare(f.gen(4)); ok {
 		safeCall(call)
 	}
 
-	var pts []point
+	var pts, prep []point
 	r := row{Family: f.name, Entry: en.name, Verdict: "near-linear"}
 	var calibs []time.Duration
 	noisy := false
+	cut := ""
 	stopped := ""
 	for _, n := range ladder {
 		touchCur()
@@ -366,7 +373,34 @@ func runCase(c *common.Ctx, e *common.Enum, f *family, en *entry) {
 		if len(sql) > maxInputSize {
 			break
 		}
-		call, ok := en.prepare(sql)
+		var call func() string
+		ok := true
+		if en.needAST {
+			var tr *ast.AST
+			pp, err := measure(func() string {
+				t, err := gosqlx.Parse(sql)
+				tr = t
+				return errClass(err)
+			}, true)
+			if err != nil {
+				c.Fail("harness:counter-snapshot", err.Error())
+				return
+			}
+			pp.N, pp.Bytes = n, len(sql)
+			prep = append(prep, pp)
+			ok = pp.Result == "ok" && tr != nil
+			call = func() string { return en.tree(tr) }
+			if sig, _, _ := judge(en, prep, nil); sig != "" {
+				// reported by the Parse case of this family; larger trees would cost 4x per step to build
+				cut = fmt.Sprintf("ladder cut at n=%d: building the tree for this family is itself super-linear (reported by the Parse case)", n)
+				ok = false
+			}
+		} else {
+			call, ok = en.prepare(sql)
+		}
+		if cut != "" {
+			break
+		}
 		if !ok {
 			// a tree-consuming entry point and the parser rejects this input: nothing to measure
 			pts = append(pts, point{N: n, Bytes: len(sql), Result: "not-parsed"})
@@ -419,6 +453,9 @@ func runCase(c *common.Ctx, e *common.Enum, f *family, en *entry) {
 		}
 	}
 	_ = stopped
+	if cut != "" {
+		c.Count("ladders_cut_parse_superlinear", 1)
+	}
 
 	// table row and outcome class
 	var ns []int
@@ -455,6 +492,9 @@ func runCase(c *common.Ctx, e *common.Enum, f *family, en *entry) {
 	case measured == 0:
 		class = "not-parsed"
 		r.Verdict = "not measured: the parser rejects this family"
+	case cut != "":
+		class = "near-linear,ladder-cut"
+		r.Verdict = "near-linear up to n_max; " + cut
 	case r.Result != "ok":
 		class = "near-linear," + r.Result + "-at-n-max"
 	}
@@ -534,7 +574,7 @@ func judge(en *entry, pts []point, call func() string) (sig, where, msg string) 
 		fn := declFunc(u)
 		x := []float64{float64(ps[0].vec[u]), float64(ps[1].vec[u]), float64(ps[2].vec[u])}
 		msg = describe("execution count of basic block "+unitPos(u)+" in "+fn, x)
-		if !meta.funcs[meta.units[u].fn].lib {
+		if !meta.funcs[meta.units[u].fn].lib && call != nil {
 			// the steep block is in the standard library: name the library function that calls into it
 			if caller := sampleCaller(call); caller != "" {
 				msg += "; reached from " + caller
@@ -557,6 +597,9 @@ func judge(en *entry, pts []point, call func() string) (sig, where, msg string) 
 		return "superlinear:" + en.name + ":" + fn, fn, msg
 	}
 	if allBad {
+		if call == nil {
+			return "superlinear:" + en.name + ":alloc", "alloc", "allocated bytes"
+		}
 		fn := allocSite(call)
 		msg = describe("allocated bytes", all)
 		if fn == "" {
